@@ -9,6 +9,7 @@
    evaluateNode on a nil root). *)
 From Coq Require Import List NArith ZArith Bool.
 From Verif Require Import model.CqlEval proofs.CqlEvalProofs.
+From Verif Require model.CqlSyntax model.CqlParser proofs.CqlBridgeProofs.
 Import ListNotations.
 
 (* -- totality ---------------------------------------------------------------------------------------- *)
@@ -33,6 +34,13 @@ Theorem c15_parsed_query_total : forall e r q c,
                /\ eval_contact e r q' c = RBool b /\ eval_contact e r q c = RBool b.
 Proof. exact parsed_query_total. Qed.
 Print Assumptions c15_parsed_query_total.
+
+(* [wf] is what the parser produces: every tree that the lexer, parser and visitor of the ParseQuery model
+   (model/CqlParser.v, property C14) build for a query TEXT, read in this model's types, has no empty combination *)
+Theorem c15_parsed_trees_wf : forall e s n m,
+  CqlParser.parse_front e s = CqlParser.FTree n -> CqlBridgeProofs.conv n = Some m -> wf m.
+Proof. exact CqlBridgeProofs.parsed_tree_wf. Qed.
+Print Assumptions c15_parsed_trees_wf.
 
 (* the validator is not vacuous and the evaluator does panic outside of what it admits *)
 Example c15_panic_reachable :
@@ -92,6 +100,20 @@ Theorem c15_empty_value : forall e r c pt key,
   /\ eval_contact e r (Cond pt key OpNe []) c = RBool (negb (no_vals (query_property c pt key))).
 Proof. exact empty_value_on_contact. Qed.
 Print Assumptions c15_empty_value.
+
+(* in terms of the contact itself *)
+Theorem c15_empty_value_in_contact_terms : forall e r c key,
+  eval_contact e r (Cond PField key OpEq []) c =
+    RBool (match assoc key (c_fields c) with
+           | None => true
+           | Some (ft, fv) => match query_value ft fv with None => true | Some _ => false end
+           end)
+  /\ eval_contact e r (Cond PAttr k_name OpEq []) c = RBool (is_nil (c_name c))
+  /\ eval_contact e r (Cond PAttr k_language OpEq []) c = RBool (is_nil (c_lang c))
+  /\ eval_contact e r (Cond PUrn key OpEq []) c = RBool (negb (existsb (fun u => text_eqb (fst u) key) (c_urns c)))
+  /\ eval_contact e r (Cond PAttr k_last_seen_on OpNe []) c = RBool (match c_last_seen c with Some _ => true | None => false end).
+Proof. exact empty_value_in_contact_terms. Qed.
+Print Assumptions c15_empty_value_in_contact_terms.
 
 (* -- numbers ------------------------------------------------------------------------------------------ *)
 
